@@ -197,10 +197,10 @@ def run(ctx, sess):
     _guarded_caches(ctx, P)
     _open_strict(ctx, P)
     # the value the gates compare with is the CRC-32C in every implementation (C04's three-bit clause rests on it)
-    ctx.rule('C04.11', '"at most three flipped bits": the function the gates compare with is the plain CRC-32C register update in every implementation the build can select: kernels, framing and - for the intrinsic implementations - a single ordered chain of steps that tiles the input (shared with C18.2-C18.4); the minimum distance itself is the polynomial\'s')
+    ctx.rule('C04.11', '"at most three flipped bits": the function the gates compare with is the plain CRC-32C register update in every implementation the build can select: kernels, framing and - for the intrinsic implementations - a single ordered chain of steps that tiles the input (shared with C18.2-C18.5); the minimum distance itself is the polynomial\'s')
     from .common import relay
     from . import c18 as _src_c18
-    relay(ctx, sess, _src_c18.run, {'C18.2': 'C04.11', 'C18.3': 'C04.11', 'C18.4': 'C04.11'})
+    relay(ctx, sess, _src_c18.run, {'C18.2': 'C04.11', 'C18.3': 'C04.11', 'C18.4': 'C04.11', 'C18.5': 'C04.11'})
 
 
 def _footer_le(fn, cmp_block, dpath, size_arg):
